@@ -2,4 +2,4 @@
 # usage: tools/seed_all.sh <tier> <par> <seed-dir>...   evaluates each seed dir against the check named by its parent directory (C07/1 -> C07)
 tier=$1; par=$2; shift 2
 T="$(cd "$(dirname "$0")" && pwd)"
-printf '%s\n' "$@" | xargs -P "$par" -I{} bash -c 'd={}; id=$(basename $(dirname $d)); id=${id%%-*}; ids=${SEED_IDS:-$id}; '"$T"'/seed_eval.py $d '"$tier"' $ids > $d/eval.'"$tier"'.log 2>&1; grep -h "^SEED-RESULT" $d/eval.'"$tier"'.log | cut -c1-600'
+printf '%s\n' "$@" | xargs -P "$par" -I{} bash -c 'd={}; id=$(basename $(dirname $d)); id=${id%%-*}; ids=${SEED_IDS:-$id}; '"$T"'/seed_eval.py $d '"$tier"' $ids > $d/eval.'"$tier"'.log 2>&1; grep -h "^SEED-RESULT" $d/eval.'"$tier"'.log'
